@@ -56,6 +56,9 @@ type internalAppReference struct {
 
 type internalApp struct {
 	id uint8
+	// precedence of the PDR the applications entry was installed for; it determines the priority of the
+	// entry and is therefore part of its key.
+	precedence uint32
 	// usedBy keeps track of <F-SEID (UE session); PDR-ID> pairs using this application filter.
 	usedBy set.Set
 }
@@ -814,7 +817,8 @@ func (up4 *UP4) addInternalApplicationIDAndGetP4rtEntry(pdr pdr) (*p4.TableEntry
 	}
 
 	up4Application := internalApp{
-		id: newAppID,
+		id:         newAppID,
+		precedence: pdr.precedence,
 		usedBy: set.NewSet(internalAppReference{
 			pdr.fseID, pdr.pdrID,
 		}),
@@ -849,6 +853,9 @@ func (up4 *UP4) removeInternalApplicationIDAndGetP4rtEntry(pdr pdr) (*p4.TableEn
 	if internalApp.usedBy.Cardinality() != 0 {
 		return nil, internalApp.id
 	}
+
+	// the entry is identified by the priority it was installed with, not by the precedence of the last PDR using it
+	pdr.precedence = internalApp.precedence
 
 	applicationsEntry, err := up4.p4RtTranslator.BuildApplicationsTableEntry(pdr, up4.conf.SliceID, internalApp.id)
 	if err != nil {
